@@ -16,19 +16,19 @@ type deferred struct {
 }
 
 type Frame struct {
-	fi       *funcInfo
-	fn       *ssa.Function
-	block    *ssa.BasicBlock
-	prev     *ssa.BasicBlock
-	ip       int
-	regs     []Value
-	defers   []deferred
-	visits   map[int]int // loop unwinding: block index -> visits
-	catch    string      // non-empty: this frame catches Go panics ("vpanics") or blocking
-	onReturn func(st *State, results Value) // optional continuation for model-initiated calls
+	fi            *funcInfo
+	fn            *ssa.Function
+	block         *ssa.BasicBlock
+	prev          *ssa.BasicBlock
+	ip            int
+	regs          []Value
+	defers        []deferred
+	visits        map[int]int                    // loop unwinding: block index -> visits
+	catch         string                         // non-empty: this frame catches Go panics ("vpanics") or blocking
+	onReturn      func(st *State, results Value) // optional continuation for model-initiated calls
 	runningDefers bool
-	retVal   Value
-	panicking *goPanic
+	retVal        Value
+	panicking     *goPanic
 }
 
 type obsRec struct {
